@@ -346,6 +346,67 @@ func (m *cacheModel) opRegex(step int, st scn.Step, owner int32) string {
 	return got.Key()
 }
 
+// opMatchNodes evaluates a predicate whose pattern is computed from each
+// candidate node (its name) and compares the selected nodes with Go's regexp
+// applied node by node.
+func (m *cacheModel) opMatchNodes(step int, st scn.Step) string {
+	x := m.x
+	if len(x.docs) == 0 {
+		return "no-doc"
+	}
+	var text string
+	var pat func(name string) string
+	switch st.N % 3 {
+	case 0:
+		text, pat = "//*[matches(@k, local-name())]", func(n string) string { return n }
+	case 1:
+		text, pat = "//*[matches(@k, concat('^', name(), '$'))]", func(n string) string { return "^" + n + "$" }
+	default:
+		text, pat = "//*[matches(@k, concat(name(), '+'))]", func(n string) string { return n + "+" }
+	}
+	ex, co := compile(text)
+	if ex == nil {
+		x.viol("regex-compile", "regex-compile", fmt.Sprintf("Compile(%q) failed: %s", text, co.Key()), step)
+		return "cerr"
+	}
+	doc := x.docs[0]
+	got := selectAll(ex, world.NewNav(doc, 0, -1), 0)
+	want := Outcome{Kind: "nodes", IDs: []int{}}
+	for _, n := range doc.Nodes {
+		if n.Kind != xpath.ElementNode {
+			continue
+		}
+		var k *world.Node
+		for _, a := range n.Attrs {
+			if a.Local == "k" && a.Prefix == "" {
+				k = a
+			}
+		}
+		if k == nil {
+			continue // matches(empty node-set, p) is not true
+		}
+		name := n.Local
+		if n.Prefix != "" {
+			name = n.Prefix + ":" + n.Local
+		}
+		p := pat(name)
+		if st.N%3 == 0 {
+			p = pat(n.Local)
+		}
+		re, err := regexp.Compile(p)
+		if err != nil {
+			return "invalid-name-pattern"
+		}
+		if re.MatchString(k.Data) {
+			want.IDs = append(want.IDs, n.ID)
+		}
+	}
+	if got.Key() != want.Key() {
+		x.viol("regex-result", "regex-result:matches-per-node", fmt.Sprintf("Select(%q) = %s, Go regexp applied node by node gives %s", text, clip(got.Key()), clip(want.Key())), step)
+	}
+	return got.Key()
+}
+
 // histC16 runs a sequential key history.
 func (x *exec) histC16() {
 	keysSeen := map[string]bool{}
@@ -360,6 +421,9 @@ func (x *exec) histC16() {
 			r := m.opGet(i, e, st.K, st.Fail)
 			x.tracef("step %d get %q fail=%v -> %s", i, st.K, st.Fail, r)
 			keysSeen[st.K] = true
+		case "matchnodes":
+			r := m.opMatchNodes(i, st)
+			x.tracef("step %d matchnodes variant %d -> %s", i, st.N, r)
 		case "matches", "replace", "compilebad":
 			r := m.opRegex(i, st, -1)
 			x.tracef("step %d %s s=%q p=%q r=%q src=%s -> %s", i, st.Op, st.S, st.K, st.R, st.Src, r)
